@@ -46,6 +46,7 @@ STRUCT = {
     "ORDER-ARMS": RT.rule_order_arms,
     "CONTAINER-PROV": RT.rule_container_prov,
     "SEQ-PROV": RT.rule_seq_prov,
+    "MERGE-ARMS": RT.rule_merge_arms,
     "ENTRY-SIB": RT.rule_entry_sib,
     "NONCONSUMPTION-FWD": RT.rule_nonconsumption,
     "CHAR-SIB": RX.rule_char_sib,
@@ -65,7 +66,7 @@ PROP_RULES = {
     "C05": ["D:POISON", "D:KEEP", "D:LIFO", "HOOKS-SAVE-REWIND", "HOOKS-WRITERS", "MODE-PURE", "SUB-INPUT", "K"],
     "C07": ["K", "SPAN-PROV", "READER-SIB", "INPUT-MISC"],
     "C10": ["READER-SIB", "SPAN-PROV", "STREAM", "INPUT-MISC", "CHAR-SIB"],
-    "C06": ["D:ALT-LINEAR", "D:ALT-POS", "D:PFAIL", "ORDER-ARMS", "ERR-SPAN", "ENTRY", "K"],
+    "C06": ["D:ALT-LINEAR", "D:ALT-POS", "D:PFAIL", "ORDER-ARMS", "ERR-SPAN", "MERGE-ARMS", "ENTRY", "K"],
     "C08": ["K", "D:POISON", "D:ALT-LINEAR", "D:PFAIL", "MODE-PURE", "SUB-INPUT"],
     "C09": ["K", "D:POISON", "RECURSE", "AFFINE"],
     "C11": ["K", "D:ALT-LINEAR", "D:ALT-POS", "D:PFAIL", "MEMO-KEY"],
